@@ -104,7 +104,6 @@ theorem fold_push_comm (shA shB : List Nat) (f : Idx → Idx) (x : Idx → ℚ)
   rw [e2, pushL_mirror shA shB f x hbox hmir j hj]; ring
 
 
-open Finset
 
 theorem getD_add_sum_eraseIdx (l : List Nat) (k : Nat) : l.getD k 0 + (l.eraseIdx k).sum = l.sum := by
   induction l generalizing k with
